@@ -116,6 +116,14 @@ func (g *sysGen) name2() string {
 	}
 }
 
+func (g *sysGen) nameNotAssoc() string {
+	for {
+		if v := g.name(); v.kind != "assoc" && v.n != "IFS" {
+			return v.n
+		}
+	}
+}
+
 func (g *sysGen) pick(xs ...string) string { return xs[g.r.Intn(len(xs))] }
 
 func (g *sysGen) name() sysName {
@@ -375,8 +383,10 @@ func (g *sysGen) core() string {
 		n2 := g.name2()
 		return g.pick(
 			fmt.Sprintf("%s=%s %s=$%s", n, g.val(), n2, n),
-			fmt.Sprintf("%s=(\"${%s[@]}\")", n, n2),
-			fmt.Sprintf("%s=(\"${!%s[@]}\")", n, n2),
+			// (not from an associative array: its keys and values come
+			// out in Go map order, which differs from run to run)
+			fmt.Sprintf("%s=(\"${%s[@]}\")", n, g.nameNotAssoc()),
+			fmt.Sprintf("%s=(\"${!%s[@]}\")", n, g.nameNotAssoc()),
 			fmt.Sprintf("%s=$%s; unset %s", n, n2, n2),
 			fmt.Sprintf("%s[%s]=${%s[0]}", n, g.idx(k), n2),
 			fmt.Sprintf("read %s %s <<< 'w1 w2'", n, n2),
